@@ -247,6 +247,13 @@ func RepExprs(yield func(name string, x X)) {
 	yield("subscript", Subscript(Col("c1"), Int("1")))
 	yield("subscript2", Subscript(Subscript(Col("c1"), Int("1")), Int("2")))
 	yield("slice", Slice(Col("c1"), xp(Int("1")), xp(Int("2"))))
+	// chains of subscripts and slices with a name of its own in every index position (what an earlier [...] holds must stay in the tree)
+	yield("subscript-then-slice", Slice(Subscript(Col("c1"), Func("f1", []X{Col("c2")}, FuncOpts{})), xp(Col("c3")), xp(Col("c4"))))
+	yield("subscript-then-open-slice", Slice(Subscript(Col("c1"), Col("c2")), nil, xp(Col("c3"))))
+	yield("subscript-then-slice-from", Slice(Subscript(Col("c1"), Col("c2")), xp(Col("c3")), nil))
+	yield("slice-then-subscript", Subscript(Slice(Col("c1"), xp(Col("c2")), xp(Col("c3"))), Func("f1", []X{Col("c4")}, FuncOpts{})))
+	yield("slice-then-slice", Slice(Slice(Col("c1"), xp(Col("c2")), xp(Col("c3"))), xp(Col("c4")), xp(Col("c5"))))
+	yield("subscript-subquery-then-slice", Slice(Subscript(Col("c1"), Subq(simpleSel("t8"))), xp(Int("1")), xp(Int("2"))))
 	yield("tuple", Tuple([]X{Col("c1"), Col("c2")}))
 	yield("json-arrow", Bin("->", Col("c1"), Str("k")))
 	yield("json-contains", Bin("@>", Col("c1"), Col("c2")))
@@ -339,6 +346,9 @@ func Holes() []Hole {
 		{Name: "cast.operand", Fill: func(x X) S { return selItem(Cast(x, "int")) }},
 		{Name: "array.element", Fill: func(x X) S { return selItem(Array([]X{x, Int("1")})) }},
 		{Name: "subscript.index", Fill: func(x X) S { return selItem(Subscript(Col("c0"), x)) }},
+		{Name: "subscript.index-before-slice", Fill: func(x X) S { return selItem(Slice(Subscript(Col("c0"), x), xp(Int("1")), xp(Int("2")))) }},
+		{Name: "slice.low", Fill: func(x X) S { return selItem(Slice(Col("c0"), xp(x), xp(Int("2")))) }},
+		{Name: "slice.high", Fill: func(x X) S { return selItem(Slice(Col("c0"), nil, xp(x))) }},
 		{Name: "tuple.element", Fill: func(x X) S { return selWhere(In(Tuple([]X{Col("c0"), x}), false, []X{Tuple([]X{Int("1"), Int("2")})})) }},
 		{Name: "subquery.where", Fill: func(x X) S { return selWhere(Exists(false, selWhere(x))) }},
 		{Name: "derived.where", Fill: func(x X) S {
